@@ -63,6 +63,26 @@ SUMMARY = {
 "C18-s3": "both root-fit tests compare the absolute stream position with 16 384 instead of the P-relative length; needs P near or above 16 K",
 "C19-s3": "walker returns Ok(()) for dir_length == 0 before decoding: Unknown compression with an empty root and no metadata opens; needs exactly that header",
 "C20-s3": "recursive call passes leaf_offset as the leaf-section base; needs two nested leaf levels with the first-level leaf not at offset 0",
+"C01-s4": "[disguised in a refactoring] new helper from_header(&Header) copies 11 of the 12 header settings (center_zoom falls back to ..Self::default()); needs center_zoom ≠ 0",
+"C02-s4": "[disguised] Header literal moved into build_header(sections, addressed, entries, content); the call passes (addressed, content, entries); needs a non-adjacent duplicate tile",
+"C03-s4": "[disguised] new Entry::covers uses tile_id <= run_end (run end is exclusive); needs a lookup of the id just past a run",
+"C04-s4": "[disguised] remove_tile: get + remove moved inside the `if let Hash(..)` arm, so reader-backed tiles are never removed; needs save, reopen, remove",
+"C05-s4": "[disguised] new is_contiguous uses abs_diff(prev.offset) == prev.length (symmetric); needs an entry exactly prev.length bytes in front of its predecessor",
+"C06-s4": "[disguised] root_dir_overflow = length.checked_sub(MAX) is Some(0) at exactly 16 257 bytes; needs a list that encodes to exactly the budget",
+"C07-s4": "[disguised] grid_size = (z < 32).then_some(1 << z) evaluates the shift eagerly; needs a lookup with z ≥ 64 (debug build panics)",
+"C08-s4": "[disguised] depth guard moved to the recursion site with child_depth = depth + 1, but the recursive call passes depth; needs a leaf-pointer cycle",
+"C09-s4": "[disguised] Header::from_bytes slices the input under the guard len > 127 (should be ≥); needs exactly 127 bytes",
+"C10-s4": "[disguised] push_entry matches entries.as_mut_slice() with [last, ..] instead of [.., last]; needs a run that is not the first directory entry",
+"C11-s4": "[disguised] new tiles_in_range uses take_while(contains) instead of filter; needs a run that starts before the range's lower bound",
+"C12-s4": "[disguised] new checked_tile_id(z, x, y) is called as (z, y, x) in get_tile_async only; needs x ≠ y, async",
+"C13-s4": "[disguised] a SectionWriter adapter counts bytes offered instead of bytes accepted; needs short writes or Pending during the metadata section",
+"C14-s4": "[disguised] codec dispatch moved into duplicate_item templates; the brotli/zstd cells of the compress_async row are swapped",
+"C15-s4": "[disguised] get_tile's reader arm is Ok(read_range(..).ok()) instead of .map(Some): a failing read looks like 'no such tile'",
+"C16-s4": "[disguised] remove_tile through the entry API removes the slot only inside the `if let Hash` arm; needs remove of a reader-backed tile, then write",
+"C17-s4": "[disguised] new write_blocks(output, payload, commit) is called with header and tile data swapped: the header is written before the tile data",
+"C18-s4": "[disguised] root_directory_length = meta_data_pos − root_directory_offset (relative 127 instead of the absolute P + 127); needs P ≠ 0",
+"C19-s4": "[disguised] parse_meta_data takes Option<Value>; the readers pass serde_json::from_reader(..)? unwrapped, so JSON null deserialises to None = empty map",
+"C20-s4": "[disguised] new offset_in_section(section, rel, msg) is called with header.leaf_directories_offset for tiles; needs a non-empty leaf section",
 }
 rows = []
 for d in sorted(os.listdir(os.path.join(V, "seeded"))):
